@@ -13,6 +13,9 @@ type Doc struct {
 	Names string            `json:"names"` // utf8 | legacy
 	Kind  string            `json:"kind"`  // recording | alerting
 	Order string            `json:"order"` // rulesLast | rulesFirst
+	Schema string           `json:"schema"` // prometheus | thanos
+	G2    string            `json:"g2"`    // absent | before | after : a second, valid group
+	R2    string            `json:"r2"`    // absent | before | after : a second, valid rule in the focus group
 	Top   string            `json:"top"`
 	Gitem string            `json:"gitem"`
 	Ritem string            `json:"ritem"`
@@ -85,16 +88,47 @@ func scalarLines(ind, key, scope, status, kind string) []string {
 		return append(one(ok), one(ok)...)
 	case "badDur":
 		return one("1x")
+	case "huge":
+		if key == "limit" {
+			return one("99999999999999999999")
+		}
+		return one("99999999999y")
+	case "int0":
+		return one("0")
+	case "hex":
+		return one("0x10")
+	case "exp":
+		return one("1e3")
+	case "u64":
+		return one("9223372036854775808")
+	case "badValue":
+		return one("maybe")
+	case "utf8":
+		if key == "alert" {
+			return one(`"Über alert"`)
+		}
+		return one(`"job:üp"`)
+	case "dot":
+		return one("job.up")
 	case "zero":
+		if key == "limit" {
+			return one("0")
+		}
 		return one("0s")
 	case "str":
 		return one("abc")
 	case "quotedInt":
 		return one(`"10"`)
 	case "float":
-		return one("1.5")
+		if key == "limit" {
+			return one("1.5")
+		}
+		return one("1.5m")
 	case "neg":
-		return one("-1")
+		if key == "limit" {
+			return one("-1")
+		}
+		return one("-1m")
 	case "braces":
 		return one(`"foo{bar}"`)
 	case "space":
@@ -164,6 +198,20 @@ func mapLines(ind, key, status string) []string {
 		return block(in + item + `: "{{ .Nope }}"`)
 	case "valueTemplate":
 		return block(in + item + `: "{{ $value }}"`)
+	case "valBadUtf8":
+		return block(in + item + ": \"a\xffb\"")
+	case "tplUnknownFunc":
+		return block(in + item + `: "{{ nofunc 1 }}"`)
+	case "tplQueryBad":
+		return block(in + item + `: '{{ query "sum(" }}'`)
+	case "tplPathPrefix":
+		return block(in + item + `: "{{ pathPrefix }}"`)
+	case "tplExternal":
+		return block(in + item + `: "{{ $externalLabels.foo }} {{ $externalURL }}"`)
+	case "tplQuery":
+		return block(in + item + `: '{{ query "up" | first | value }}'`)
+	case "tplArgs":
+		return block(in + item + `: "{{ with args 1 2 }}{{ .arg0 }}{{ end }}"`)
 	}
 	panic(fmt.Sprintf("schemadoc: unknown map status %q for %s", status, key))
 }
@@ -208,6 +256,24 @@ func ruleLines(d Doc) []string {
 	panic("schemadoc: unknown ritem " + d.Ritem)
 }
 
+// siblingRule is a second, valid rule of the same kind as the focus rule.
+func siblingRule(d Doc) []string {
+	if d.Kind == "recording" {
+		return []string{"  - record: job:up:count", "    expr: count by (job) (up)"}
+	}
+	return []string{"  - alert: OtherDown", "    expr: up == 1", "    for: 5m"}
+}
+
+func withSibling(d Doc) []string {
+	switch d.R2 {
+	case "before":
+		return append(siblingRule(d), ruleLines(d)...)
+	case "after":
+		return append(ruleLines(d), siblingRule(d)...)
+	}
+	return ruleLines(d)
+}
+
 func rulesLines(d Doc) []string {
 	const ind = "  "
 	head := ind + "rules:"
@@ -215,7 +281,7 @@ func rulesLines(d Doc) []string {
 	case "absent":
 		return nil
 	case "ok":
-		return append([]string{head}, ruleLines(d)...)
+		return append([]string{head}, withSibling(d)...)
 	case "null":
 		return []string{head}
 	case "emptyList":
@@ -229,12 +295,24 @@ func rulesLines(d Doc) []string {
 	case "bool":
 		return []string{head + " true"}
 	case "dup":
-		return append(append([]string{head}, ruleLines(d)...), head+" []")
+		return append(append([]string{head}, withSibling(d)...), head+" []")
 	}
 	panic("schemadoc: unknown rules status " + d.G["rules"])
 }
 
+var siblingGroup = []string{"- name: other", "  rules:", "  - record: other:up:sum", "    expr: sum(up)"}
+
 func groupLines(d Doc) []string {
+	switch d.G2 {
+	case "before":
+		return append(append([]string{}, siblingGroup...), focusGroupLines(d)...)
+	case "after":
+		return append(focusGroupLines(d), siblingGroup...)
+	}
+	return focusGroupLines(d)
+}
+
+func focusGroupLines(d Doc) []string {
 	const ind = "  "
 	switch d.Gitem {
 	case "map":
